@@ -1246,7 +1246,27 @@ def _np_stack(seq, axis=0):
     return base.transpose(*perm) if axis else base
 
 
+def _np_tile(a, reps):
+    import itertools
+
+    a = XArray.from_nested(a)
+    if isinstance(reps, (int, Fraction)):
+        reps = (int(reps),)
+    reps = tuple(int(x) for x in (reps.data if isinstance(reps, XArray) else reps))
+    d = max(len(reps), a.ndim)
+    shp = (1,) * (d - a.ndim) + tuple(a.shape)
+    reps = (1,) * (d - len(reps)) + reps
+    src = XArray(shp, a.data)
+    out_shape = tuple(s_ * r_ for s_, r_ in zip(shp, reps))
+    strides = src._strides()
+    out = []
+    for idx in itertools.product(*[range(n) for n in out_shape]):
+        out.append(src.data[sum((i % s_) * st for i, s_, st in zip(idx, shp, strides))])
+    return XArray(out_shape, out)
+
+
 _NP_FUNCS = {
+    "tile": _np_tile,
     "array": _np_array,
     "asarray": _np_array,
     "asanyarray": _np_array,
